@@ -141,6 +141,7 @@ pub const QUICK_ANCHORS: [(usize, usize); 9] = [(0, 0), (5, 0), (0, 5), (5, 5), 
 
 /// quick anchors: a1 corner, h8 corner, c3-centred, f6-centred, centre
 pub const QUICK_ANCHORS5: [(usize, usize); 5] = [(0, 5), (5, 0), (1, 4), (4, 1), (3, 3)];
+pub const QUICK_ANCHORS3: [(usize, usize); 3] = [(0, 5), (4, 1), (3, 3)];
 
 pub fn f3w(anchors: Option<&[(usize, usize)]>, kinds: &'static [usize], label: &str) -> Family {
     let triples = window_triples(anchors);
@@ -408,7 +409,8 @@ fn fs_impl(dir: &std::path::Path, hv: u64, gv: u64, only: Option<Vec<String>>) -
     // expand to (board index, variant) pairs
     let mut items: Vec<(usize, u64)> = vec![];
     for (i, (_, name)) in boards.iter().enumerate() {
-        let nvar = if name.starts_with("generated") { gv } else { hv };
+        // hill-climbed boards (maxmobility, bothmobile) are heavy roots: all four variants only when the generated ones get them too
+        let nvar = if name.starts_with("generated") { gv } else if name.starts_with("maxmobility") || name.starts_with("bothmobile") { hv.min(gv.max(1)) } else { hv };
         for v in 0..nvar {
             items.push((i, v));
         }
